@@ -461,6 +461,16 @@ func (e *env) eval(v ssa.Value) GVal {
 		if b := ssau.Builtin(x); b == "len" || b == "cap" {
 			return e.evalLen(x.Call.Args[0])
 		}
+		if b := ssau.Builtin(x); b == "max" && len(x.Call.Args) == 2 {
+			// max(x, 0): a count clamped at zero. A loop `for i := 0; i < x` visits the same (empty)
+			// range for x < 0 as for 0, so the clamp is dropped in the identities; the sign clause
+			// (total-non-negative) sees it structurally.
+			for k, a := range x.Call.Args {
+				if n, ok := ssau.ConstInt(a); ok && n == 0 {
+					return e.eval(x.Call.Args[1-k])
+				}
+			}
+		}
 		if o := ssau.CalleeObj(x); o != nil && ssau.IsFunc(o, "math", "Floor") {
 			in := e.eval(x.Call.Args[0])
 			if p, ok := in.plain(); ok {
